@@ -1,5 +1,9 @@
 import MidnightZK.Proofs.C04.Gates
 import MidnightZK.Proofs.C04.Sound2
+import MidnightZK.Proofs.C04.Bool
+import MidnightZK.Proofs.C04.Range2
+import MidnightZK.Proofs.C04.DivRem
+import MidnightZK.Proofs.C04.Complete
 /-!
 # C04 — native-field gadgets are complete and sound w.r.t. their mathematical meaning
 
@@ -82,9 +86,9 @@ blocks; each `_sound` theorem below is therefore valid in any context). -/
 theorem emitters_only_add_constraints (s : St F) (x y : Cell) (c : F) (terms : List (F × Cell)) :
     s.Ext (linearCombination s terms c).2 ∧ s.Ext (mul s x y (some c)).2 ∧
     s.Ext (isEqual s x y).2 ∧ s.Ext (isEqualToFixed s x c).2 ∧ s.Ext (inv0 s x).2 ∧
-    s.Ext (div s x y).2 ∧ s.Ext (condSwap s c' x y).2 :=
+    s.Ext (div s x y).2 ∧ s.Ext (condSwap s x x y).2 ∧ s.Ext (lowerThan s x 8 y 8).2 :=
   ⟨linearCombination_ext .., mul_ext .., isEqual_ext .., isEqualToFixed_ext .., inv0_ext ..,
-   div_ext .., condSwap_ext ..⟩
+   div_ext .., condSwap_ext .., lowerThan_ext ..⟩
 
 /-! ## Arithmetic -/
 
@@ -216,5 +220,152 @@ theorem cond_swap_sound (s : St F) (c x y : Cell) (asg : Cell → F) (hc : s.Cac
   · have h01 : ¬ ((0 : F) = 1) := Field.zero_ne_one
     rw [h1, h2, hb]; simp [h01]; constructor <;> grind
   · rw [h1, h2, hb]; simp; constructor <;> grind
+
+/-! ## Boolean logic (lists of every length) -/
+
+/-- `and`, `or`, `xor` over a non-empty list of cells: the output is the iterated product,
+`a + b − ab`, `a + b − 2ab` of the inputs, for EVERY list length (including the shortcuts of
+`mul` through the cached constant 1). -/
+theorem and_or_xor_sound (s : St F) (b : Cell) (rest : List Cell) (asg : Cell → F)
+    (hc : s.CacheOK asg) :
+    ((and s (b :: rest)).2.Holds R asg →
+      asg (and s (b :: rest)).1 = (rest.map asg).foldl (fun a x => a * x) (asg b)) ∧
+    ((or s (b :: rest)).2.Holds R asg →
+      asg (or s (b :: rest)).1 = (rest.map asg).foldl (fun a x => a + x - a * x) (asg b)) ∧
+    ((xor s (b :: rest)).2.Holds R asg →
+      asg (xor s (b :: rest)).1 = (rest.map asg).foldl (fun a x => a + x - 2 * a * x) (asg b)) :=
+  ⟨fun h => (and_sound s b rest asg hc h).2, fun h => (or_sound s b rest asg hc h).2,
+   fun h => (xor_sound s b rest asg hc h).2⟩
+
+/-- On field bits these polynomial connectives (and `not = 1 − a`, bit equality
+`1 − a − b + 2ab`) are the boolean ones. -/
+theorem bit_connectives {a b : F} (ha : a = 0 ∨ a = 1) (hb : b = 0 ∨ b = 1) :
+    (a * b = if a = 1 ∧ b = 1 then 1 else 0) ∧
+    (a + b - a * b = if a = 1 ∨ b = 1 then 1 else 0) ∧
+    (a + b - 2 * a * b = if (a = 1) ≠ (b = 1) then 1 else 0) ∧
+    (1 - a = if a = 1 then 0 else 1) ∧
+    (1 - a - b + 2 * a * b = if a = b then 1 else 0) := bit_ops ha hb
+
+/-- `not`, `is_equal`/`is_not_equal` on bits. -/
+theorem not_and_bit_equality_sound (s : St F) (a b : Cell) (asg : Cell → F) (hc : s.CacheOK asg) :
+    ((not s a).2.Holds R asg → asg (not s a).1 = 1 - asg a) ∧
+    ((bitIsEqual s a b).2.Holds R asg →
+      asg (bitIsEqual s a b).1 = 1 - asg a - asg b + 2 * asg a * asg b) ∧
+    ((bitIsNotEqual s a b).2.Holds R asg →
+      asg (bitIsNotEqual s a b).1 = asg a + asg b - 2 * asg a * asg b) :=
+  ⟨fun h => (not_sound s a asg hc h).2, fun h => (bitIsEqual_sound s a b asg hc h).2,
+   fun h => (bitIsNotEqual_sound s a b asg hc h).2⟩
+
+/-! ## Range checks, decomposition, comparison -/
+
+/-- `decompose_core` (pow2range lookups + recomposition chain), for every list of limb sizes
+satisfying the structure the Rust code asserts and every number 1..4 of lookup columns: the
+decomposed value is a natural number below `2^(Σ sizes)` — whatever limbs the prover chooses. -/
+theorem decompose_core_sound (hR : RangeSound R) (s : St F) (sizes : List Nat) (asg : Cell → F)
+    (h0 : 0 < s.nrCols) (h4 : s.nrCols ≤ 4) (hok : sizesOK s.nrCols sizes) (hc : s.CacheOK asg)
+    (h : (decomposeCore s sizes).2.Holds R asg) :
+    ∃ N : Nat, N < 2 ^ sizes.sum ∧ asg (decomposeCore s sizes).1.1 = (N : F) :=
+  (decomposeCore_sound hR s sizes asg h0 h4 hok hc h).2
+
+/-- `assert_less_than_pow2` (`assign_less_than_pow2`, byte assignment, `bounded_of_element`):
+a value `≥ 2^k` makes the circuit unsatisfiable. `OptOK` is the (decidable) well-formedness of
+the output of `compute_optimal_limb_sizes` for this bit length; see `opt_limb_sizes_ok_small`
+and the `optok` requests of the correspondence run. -/
+theorem assert_less_than_pow2_sound (hR : RangeSound R) (s : St F) (x : Cell) (k : Nat)
+    (asg : Cell → F) (h0 : 0 < s.nrCols) (h4 : s.nrCols ≤ 4) (hopt : OptOK s k)
+    (hc : s.CacheOK asg) (h : (assertLessThanPow2 s x k).Holds R asg) :
+    ∃ N : Nat, N < 2 ^ k ∧ asg x = (N : F) :=
+  (assertLessThanPow2_sound hR s x k asg h0 h4 hopt.1 hopt.2 hc h).2
+
+/-- Kernel-evaluated instances of `OptOK`: the optimal limb sizes computed for the default
+configuration (4 lookup columns, `max_bit_len = 8`) are well-formed for all bit lengths ≤ 24. -/
+theorem opt_limb_sizes_ok_small :
+    ∀ k ∈ List.range 25, OptOK (St.init 4 8 : St F) k := by
+  intro k hk
+  simp only [List.mem_range] at hk
+  unfold OptOK optRowsOK
+  simp only [St.init]
+  have : ∀ k < 25, (∀ r ∈ (optTable 4 8 k).getD k [], r ≠ [] ∧ r.length ≤ 4 ∧ ∀ x ∈ r, r.head? = some x) ∧
+      (((optTable 4 8 k).getD k []).map List.sum).sum = k := by decide +kernel
+  exact this k hk
+
+/-- `assert_lower_than_fixed` for an arbitrary bound (constraint-emitting path). Partial: the
+early return on a cached smaller bound is justified by an invariant of `constrained_cells` that
+is not proved here. -/
+theorem assert_lower_than_fixed_sound_partial (hR : RangeSound R) (s : St F) (x : Cell)
+    (bound : Nat) (asg : Cell → F) (hnb : s.boundLe x bound = false) (hb : 0 < bound)
+    (h0 : 0 < s.nrCols) (h4 : s.nrCols ≤ 4) (hopt : OptOK s bound.log2)
+    (hc : s.CacheOK asg) (h : (assertLowerThanFixed s x bound).Holds R asg) :
+    ∃ M : Nat, M < bound ∧ asg x = (M : F) :=
+  assertLowerThanFixed_sound_partial hR s x bound asg hnb hb h0 h4 hopt hc h
+
+/-- `lower_than`: the output bit is `[x < y]` for every accepted assignment (no value of the
+comparison hint or of the limbs of the range check makes the circuit accept a wrong bit). -/
+theorem lower_than_sound (hR : RangeSound R) (p : Nat)
+    (hinj : ∀ a b : Nat, a < p → b < p → ((a : Nat) : F) = ((b : Nat) : F) → a = b)
+    (s : St F) (x : Cell) (bx : Nat) (y : Cell) (by_ : Nat) (asg : Cell → F)
+    (nx ny : Nat) (hx : asg x = (nx : F)) (hnx : nx < 2 ^ bx) (hy : asg y = (ny : F))
+    (hny : ny < 2 ^ by_) (hm : 2 * 2 ^ (max bx by_) ≤ p)
+    (h0 : 0 < s.nrCols) (h4 : s.nrCols ≤ 4) (hopt : OptOK s (max bx by_))
+    (hc : s.CacheOK asg) (h : (lowerThan s x bx y by_).2.Holds R asg) :
+    asg (lowerThan s x bx y by_).1 = if nx < ny then 1 else 0 :=
+  lowerThan_sound hR p hinj s x bx y by_ asg nx ny hx hnx hy hny hm h0 h4 hopt hc h
+
+/-! ## Integer division by a constant -/
+
+/-- `div_rem` at full strength is FALSE on the pinned tree: without a dividend bound the
+constraints `r < d`, `q < (p−1)/d + 1`, `d·q + r ≡ x (mod p)` do not determine `(q, r)`.
+Witness for the BLS12-381 scalar field: `d = 3`, `x = 0`, `(q, r) = ((p−1)/3, 1)` (the same
+forgery is accepted by the real MockProver; recorded as known finding
+`div_rem:no-dividend-bound:wraparound`). -/
+theorem div_rem_unbounded_unsound :
+    ¬ (∀ x q r : Nat, x < Gen.nativeModulus → r < 3 → q < (Gen.nativeModulus - 1) / 3 + 1 →
+        (3 * q + r) % Gen.nativeModulus = x % Gen.nativeModulus → q = x / 3 ∧ r = x % 3) := by
+  intro h
+  have w := divrem_core_unbounded_witness
+  simp only at w
+  exact w.2.2.2 (h 0 ((Gen.nativeModulus - 1) / 3) 1 (by decide +kernel) w.1 w.2.1 w.2.2.1)
+
+/-- `div_rem` with a declared dividend bound `B` such that `B + d ≤ p` (the condition the
+callers in the repository satisfy: SHA-256 / Poseidon variable-length padding): the range
+constraints on `q`, `r` and the field equation determine quotient and remainder. Partial: the
+unbounded case is unsound (`div_rem_unbounded_unsound`). -/
+theorem div_rem_sound_partial (p d B x q r : Nat) (hd : 0 < d) (hB : B + d ≤ p) (hx : x ≤ B)
+    (hr : r < d) (hq : q < B / d + 1) (heq : (d * q + r) % p = x % p) :
+    q = x / d ∧ r = x % d :=
+  divrem_core_sound p d B x q r hd hB hx hr hq heq
+
+/-! ## Completeness (honest witnesses exist; non-vacuity of the soundness theorems) -/
+
+/-- `is_equal` is complete: for all inputs `x, y` the honest witness (`aux = (x−y)⁻¹` or 1)
+satisfies every constraint of the program `assign; assign; is_equal`, and outputs `[x = y]`. -/
+theorem is_equal_complete (x y : F) :
+    (progIsEqual (F := F)).2.Holds R (witIsEqual x y) ∧
+    witIsEqual x y ⟨0, 0, .adv 0⟩ = x ∧ witIsEqual x y ⟨1, 0, .adv 0⟩ = y ∧
+    witIsEqual x y (progIsEqual (F := F)).1 = if x = y then 1 else 0 :=
+  isEqual_complete x y
+
+/-- `inv` is complete exactly on its domain. -/
+theorem inv_complete' (x : F) (hx : x ≠ 0) :
+    (progInv (F := F)).2.Holds R (witInv x) ∧ witInv x ⟨0, 0, .adv 0⟩ = x ∧
+    witInv x (progInv (F := F)).1 = x⁻¹ :=
+  inv_complete x hx
+
+/-- `cond_swap` is complete. -/
+theorem cond_swap_complete (b : Bool) (x y : F) :
+    (progCondSwap (F := F)).2.Holds R (witCondSwap b x y) ∧
+    witCondSwap b x y (progCondSwap (F := F)).1.1 = (if b then y else x) ∧
+    witCondSwap b x y (progCondSwap (F := F)).1.2 = (if b then x else y) :=
+  condSwap_complete b x y
+
+/-- Non-vacuity of the hypotheses `CacheOK`/`Holds` of the soundness theorems: the state after
+`assign; assign` has an empty constant cache, and the honest witness of `is_equal` satisfies
+`Holds`, so `is_equal_sound` applies to it. -/
+example (x y : F) :
+    (assign (assign (St.init 4 8 : St F)).2).2.CacheOK (witIsEqual x y) ∧
+    (isEqual (assign (assign (St.init 4 8 : St F)).2).2 ⟨0, 0, .adv 0⟩ ⟨1, 0, .adv 0⟩).2.Holds
+      (fun _ _ => True) (witIsEqual x y) :=
+  ⟨by intro p hp; simp [assign, St.init, St.addRegion] at hp,
+   (isEqual_complete (R := fun _ _ => True) x y).1⟩
 
 end MidnightZK.C04
